@@ -42,7 +42,7 @@ var (
 	rxTempNewline      = regexp.MustCompile(`\s*\|\\/\|\s*`)
 	rxDisplay          = regexp.MustCompile(`(?i)display\s*:\s*([\w-]+)\s*(?:!\s*important\s*)?(?:;|$)`)
 	rxVisibilityHidden = regexp.MustCompile(`(?i)visibility:\s*(:?hidden|collapse)`)
-	rxSrcsetURL        = regexp.MustCompile(`(?i)(\S+)(\s+[\d.]+[xw])?(\s*(?:,|$))`)
+	rxSrcsetURL        = regexp.MustCompile(`(?i)(\S+)((?:\s+[\d.]+(?:e[+-]?\d+)?[xwh])*)(\s*(?:,|$))`)
 
 	elementWithSizeAttr = map[string]struct{}{
 		"table": {},
